@@ -183,6 +183,10 @@ type Summarizer struct {
 	regexCache map[*ssa.Global]*RegexConst
 	// RegexParams: *regexp.Regexp parameters of a helper being evaluated for one particular call (bound to the caller's pattern)
 	RegexParams map[ssa.Value]*RegexConst
+	// ExtraTerm: terms of values that are not expressions over the parameters (the tokens of the output-language
+	// evaluator), consulted by termOf where it would give up
+	ExtraTerm       func(v ssa.Value) (Term, bool)
+	regexFieldCache map[regexFieldKey]*RegexConst
 }
 
 func NewSummarizer(p *Program, regexes map[string]*RegexConst) *Summarizer {
@@ -217,6 +221,11 @@ func (s *Summarizer) termOf(v ssa.Value, env termEnv) (Term, bool) {
 			}
 			return Term{}, false
 		case *ssa.Extract:
+			if s.ExtraTerm != nil {
+				if t, ok := s.ExtraTerm(x); ok {
+					return t, true
+				}
+			}
 			// result #k of a repository function whose non-constant returns all yield the same term
 			if call, ok := x.Tuple.(*ssa.Call); ok {
 				if f := staticCallee(call.Common()); f != nil && f.Blocks != nil && f.Pkg != nil && strings.HasPrefix(f.Pkg.Pkg.Path(), modulePath) {
@@ -350,6 +359,26 @@ func constOf(v ssa.Value) (constant.Value, bool) {
 
 func constString(v ssa.Value) (string, bool) {
 	v = boundElem(v)
+	// a parameterless helper of the repository that returns one and the same constant on every path
+	if call, ok := v.(*ssa.Call); ok && len(call.Common().Args) == 0 && !call.Common().IsInvoke() {
+		if g, ok := call.Common().Value.(*ssa.Function); ok && g.Blocks != nil && g.Pkg != nil && strings.HasPrefix(g.Pkg.Pkg.Path(), modulePath) && g.Signature.Results().Len() == 1 && len(g.Blocks) <= 8 {
+			res, have := "", false
+			for _, ret := range Returns(g) {
+				if _, isCall := ret.Results[0].(*ssa.Call); isCall {
+					return "", false
+				}
+				k, ok := constString(ret.Results[0])
+				if !ok || (have && k != res) {
+					return "", false
+				}
+				res, have = k, true
+			}
+			if have {
+				return res, true
+			}
+		}
+		return "", false
+	}
 	// a package-level string variable that only its package initialiser stores to, with a constant value
 	if u, ok := v.(*ssa.UnOp); ok && u.Op == token.MUL {
 		if g, ok := u.X.(*ssa.Global); ok && (isStringish(u.Type()) || isByteSlice(u.Type())) {
@@ -585,6 +614,25 @@ func (s *Summarizer) resolveRegex(v ssa.Value, depth int) *RegexConst {
 // regexInGlobalField: the pattern held in field #i of a package-level struct variable (or of the struct a
 // package-level pointer variable is initialised with), written once.
 func (s *Summarizer) regexInGlobalField(g *ssa.Global, field int, depth int) *RegexConst {
+	// one constant per field (terms that strip by the same pattern must be the same term)
+	key := regexFieldKey{g, field}
+	if rc, ok := s.regexFieldCache[key]; ok {
+		return rc
+	}
+	rc := s.regexInGlobalField1(g, field, depth)
+	if s.regexFieldCache == nil {
+		s.regexFieldCache = map[regexFieldKey]*RegexConst{}
+	}
+	s.regexFieldCache[key] = rc
+	return rc
+}
+
+type regexFieldKey struct {
+	g     *ssa.Global
+	field int
+}
+
+func (s *Summarizer) regexInGlobalField1(g *ssa.Global, field int, depth int) *RegexConst {
 	st := s.singleStoreWhere(func(addr ssa.Value) bool {
 		fa, ok := addr.(*ssa.FieldAddr)
 		return ok && fa.X == ssa.Value(g) && fa.Field == field
@@ -614,7 +662,7 @@ func (s *Summarizer) regexInGlobalField(g *ssa.Global, field int, depth int) *Re
 						for _, r2 := range *fa.Referrers() {
 							if s2, ok := r2.(*ssa.Store); ok && s2.Addr == ssa.Value(fa) {
 								if rc := s.resolveRegex(s2.Val, depth+1); rc != nil {
-									return &RegexConst{Pkg: g.Pkg.Pkg.Path(), Name: g.Name(), Src: rc.Src, Pos: rc.Pos}
+									return &RegexConst{Pkg: g.Pkg.Pkg.Path(), Name: g.Name() + "." + globalFieldName(g, field), Src: rc.Src, Pos: rc.Pos}
 								}
 							}
 						}
@@ -625,9 +673,21 @@ func (s *Summarizer) regexInGlobalField(g *ssa.Global, field int, depth int) *Re
 		return nil
 	}
 	if rc := s.resolveRegex(st.Val, depth+1); rc != nil {
-		return &RegexConst{Pkg: g.Pkg.Pkg.Path(), Name: g.Name(), Src: rc.Src, Pos: rc.Pos}
+		return &RegexConst{Pkg: g.Pkg.Pkg.Path(), Name: g.Name() + "." + globalFieldName(g, field), Src: rc.Src, Pos: rc.Pos}
 	}
 	return nil
+}
+
+// globalFieldName: the name of field #i of the struct a package-level variable holds (or points to).
+func globalFieldName(g *ssa.Global, field int) string {
+	t := g.Type().(*types.Pointer).Elem()
+	if pt, ok := t.Underlying().(*types.Pointer); ok {
+		t = pt.Elem()
+	}
+	if st, ok := t.Underlying().(*types.Struct); ok && field < st.NumFields() {
+		return st.Field(field).Name()
+	}
+	return fmt.Sprint(field)
 }
 
 func staticCallee(c *ssa.CallCommon) *ssa.Function {
@@ -673,6 +733,19 @@ func (s *Summarizer) submatchOf(v ssa.Value, env termEnv) (*RegexConst, Term, bo
 		return nil, Term{}, false
 	}
 	f := staticCallee(call.Common())
+	if f != nil && fnName(f) != "(*regexp.Regexp).FindStringSubmatch" && f.Blocks != nil && f.Pkg != nil && strings.HasPrefix(f.Pkg.Pkg.Path(), modulePath) && s.depth < 12 {
+		// a helper of the repository that hands on the submatches of one pattern on one of its arguments
+		rets := Returns(f)
+		if len(rets) == 1 && len(rets[0].Results) == 1 {
+			if _, env2, ok := s.repoCallee(call, env); ok {
+				s.depth++
+				rc, t, ok := s.submatchOf(rets[0].Results[0], env2)
+				s.depth--
+				return rc, t, ok
+			}
+		}
+		return nil, Term{}, false
+	}
 	if f == nil || fnName(f) != "(*regexp.Regexp).FindStringSubmatch" {
 		return nil, Term{}, false
 	}
@@ -1017,6 +1090,91 @@ func (s *Summarizer) indexCmpParts(op token.Token, X, Y ssa.Value, env termEnv, 
 }
 
 func (s *Summarizer) binopForm(x *ssa.BinOp, env termEnv) *Form {
+	// two integer constants (a mode parameter bound to the constant the caller passed, compared with a constant)
+	if ka, ok := constInt(s.resolveValue(x.X)); ok {
+		if kb, ok := constInt(s.resolveValue(x.Y)); ok {
+			if _, isParam := x.X.(*ssa.Parameter); isParam || s.resolveValue(x.X) != x.X || s.resolveValue(x.Y) != x.Y {
+				var v, known bool
+				switch x.Op {
+				case token.EQL:
+					v, known = ka == kb, true
+				case token.NEQ:
+					v, known = ka != kb, true
+				case token.LSS:
+					v, known = ka < kb, true
+				case token.LEQ:
+					v, known = ka <= kb, true
+				case token.GTR:
+					v, known = ka > kb, true
+				case token.GEQ:
+					v, known = ka >= kb, true
+				}
+				if known {
+					if v {
+						return fTrue()
+					}
+					return fFalse()
+				}
+			}
+		}
+	}
+	// verdict == K: integer result #i of a helper of the repository all of whose returns yield constants there
+	if x.Op == token.EQL || x.Op == token.NEQ {
+		for _, side := range [][2]ssa.Value{{x.X, x.Y}, {x.Y, x.X}} {
+			kv, isK := constInt(side[1])
+			if !isK || !isIntegerType(side[0].Type()) {
+				continue
+			}
+			var call *ssa.Call
+			idx := 0
+			switch y := side[0].(type) {
+			case *ssa.Extract:
+				call, _ = y.Tuple.(*ssa.Call)
+				idx = y.Index
+			case *ssa.Call:
+				call = y
+			}
+			if call == nil || s.depth > 12 {
+				continue
+			}
+			g, env2, ok := s.repoCallee(call, env)
+			if !ok || hasLoop(g) {
+				continue
+			}
+			var alts []*Form
+			okAll := true
+			for _, ret := range Returns(g) {
+				if idx >= len(ret.Results) {
+					okAll = false
+					break
+				}
+				k, isConst := constInt(ret.Results[idx])
+				if !isConst {
+					okAll = false
+					break
+				}
+				if k == kv {
+					alts = append(alts, s.blockCond(ret.Block(), env2, fnName(g)+" verdict"))
+				}
+			}
+			if !okAll {
+				continue
+			}
+			var f *Form
+			switch len(alts) {
+			case 0:
+				f = fFalse()
+			case 1:
+				f = alts[0]
+			default:
+				f = fOr(alts...)
+			}
+			if x.Op == token.NEQ {
+				return fNot(f)
+			}
+			return f
+		}
+	}
 	if f := s.lastByteCmp(x, env); f != nil {
 		return f
 	}
@@ -1176,6 +1334,13 @@ func (s *Summarizer) binopForm(x *ssa.BinOp, env termEnv) *Form {
 				}
 				if fv, ok := u.X.(*ssa.FreeVar); ok {
 					return wrap(atom(&LAtom{Kind: "prop", Str: "nil(" + fv.Name() + ")", Term: Term{Param: -1}, Desc: "nil(" + fv.Name() + ")"}))
+				}
+				// a field of a local struct (the state a bound method shares with this function)
+				if fa, ok := u.X.(*ssa.FieldAddr); ok {
+					if al, ok := fa.X.(*ssa.Alloc); ok {
+						n := "nil(" + al.Comment + "." + fieldName(fa.X.Type(), fa.Field) + ")"
+						return wrap(atom(&LAtom{Kind: "prop", Str: n, Term: Term{Param: -1}, Desc: n}))
+					}
 				}
 			}
 		}
@@ -1361,6 +1526,9 @@ func (s *Summarizer) blockCond(b *ssa.BasicBlock, env termEnv, what string) *For
 				return fFalse() // the block ends in a call that never returns (a helper that always panics)
 			}
 			c := cond(p)
+			if vf := s.validatorCalls(p, env); vf != nil {
+				c = fAnd(c, vf)
+			}
 			if iff, ok := p.Instrs[len(p.Instrs)-1].(*ssa.If); ok && p.Succs[0] != p.Succs[1] {
 				ec := s.ValueForm(iff.Cond, env)
 				if u, why := ec.HasUnknown(); u {
@@ -1426,7 +1594,12 @@ func (s *Summarizer) blockCond(b *ssa.BasicBlock, env termEnv, what string) *For
 			memo[x] = f
 			return f
 		}
-		return cond(b)
+		res := cond(b)
+		// the validators called in b itself: b's content reaches the caller only if they all return
+		if vf := s.validatorCalls(b, env); vf != nil {
+			res = fAnd(res, vf)
+		}
+		return res
 	}
 	var fs []*Form
 	for _, g := range GuardsOf(b) {
@@ -1606,8 +1779,23 @@ func urlGuardFunc(p *Program) *ssa.Function {
 	for _, b := range fn.Blocks {
 		if iff, ok := b.Instrs[len(b.Instrs)-1].(*ssa.If); ok {
 			if c, ok := iff.Cond.(*ssa.Call); ok {
-				if f := staticCallee(c.Common()); f != nil && f.Pkg == fn.Pkg && len(c.Common().Args) == 1 && c.Common().Args[0] == ssa.Value(fn.Params[0]) {
-					return f
+				if f := staticCallee(c.Common()); f != nil && f.Pkg == fn.Pkg && len(c.Common().Args) == 1 {
+					// the argument is the input, possibly converted to a string type of the package's own
+					a := c.Common().Args[0]
+					for {
+						if ct, ok := a.(*ssa.ChangeType); ok && isStringish(ct.X.Type()) {
+							a = ct.X
+							continue
+						}
+						if cv, ok := a.(*ssa.Convert); ok && isStringish(cv.X.Type()) && isStringish(cv.Type()) {
+							a = cv.X
+							continue
+						}
+						break
+					}
+					if a == ssa.Value(fn.Params[0]) {
+						return f
+					}
 				}
 			}
 		}
@@ -1638,7 +1826,7 @@ func (s *Summarizer) NilResultForm(f *ssa.Function, idx int, env termEnv) *Form 
 		if c, ok := isCallTo(v, "errors.New"); ok && c != nil {
 			continue
 		}
-		if provenError(unIface(v)) || certainlyNonNil(v, ret.Block()) {
+		if provenError(unIface(v)) || certainlyNonNil(v, ret.Block()) || nonNilInterface(v) {
 			continue // a package-level error value, or returned where it was tested to be non-nil
 		}
 		// returned under "v != nil"
@@ -1653,6 +1841,13 @@ func (s *Summarizer) NilResultForm(f *ssa.Function, idx int, env termEnv) *Form 
 		if nonNil {
 			continue
 		}
+		// a result chosen by the path (err assigned on some branches): nil on the edges that bring nil
+		if ph, ok := v.(*ssa.Phi); ok && ph.Block() == ret.Block() && !hasLoop(f) {
+			if pf, ok := s.nilPhiForm(ph, env, fnName(f)+" nil-result return", 0); ok {
+				alts = append(alts, pf)
+				continue
+			}
+		}
 		cond := s.blockCond(ret.Block(), env, fnName(f)+" nil-result return")
 		// the error of a helper handed on: nil exactly when the helper's is
 		if call, ok := unIface(v).(*ssa.Call); ok {
@@ -1666,6 +1861,70 @@ func (s *Summarizer) NilResultForm(f *ssa.Function, idx int, env termEnv) *Form 
 		return fOver(fFalse())
 	}
 	return fOver(fOr(alts...))
+}
+
+// edgeCond: the condition under which control passes from p to x (p's own condition and its branch).
+func (s *Summarizer) edgeCond(p, x *ssa.BasicBlock, env termEnv, what string) *Form {
+	c := s.blockCond(p, env, what)
+	if iff, ok := p.Instrs[len(p.Instrs)-1].(*ssa.If); ok && p.Succs[0] != p.Succs[1] {
+		ec := s.ValueForm(iff.Cond, env)
+		if u, why := ec.HasUnknown(); u {
+			s.Inexact = append(s.Inexact, fmt.Sprintf("%s: branch condition dropped (%s)", what, why))
+			s.InexactIn = append(s.InexactIn, ec.UnknownIn())
+			return c
+		}
+		if p.Succs[1] == x {
+			ec = fNot(ec)
+		}
+		c = fAnd(c, ec)
+	}
+	return c
+}
+
+// nilPhiForm over-approximates the inputs on which the interface-valued phi is nil: the edges that bring the nil
+// constant (or another such phi, or a value that is not known to be non-nil), each under its edge condition.
+func (s *Summarizer) nilPhiForm(ph *ssa.Phi, env termEnv, what string, depth int) (*Form, bool) {
+	if depth > 4 {
+		return nil, false
+	}
+	var alts []*Form
+	for i, e := range ph.Edges {
+		p := ph.Block().Preds[i]
+		if k, ok := e.(*ssa.Const); ok && k.Value == nil {
+			alts = append(alts, s.edgeCond(p, ph.Block(), env, what))
+			continue
+		}
+		if provenError(unIface(e)) || nonNilInterface(e) {
+			continue
+		}
+		if _, ok := isCallTo(e, "fmt.Errorf"); ok {
+			continue
+		}
+		if _, ok := isCallTo(e, "errors.New"); ok {
+			continue
+		}
+		if inner, ok := e.(*ssa.Phi); ok {
+			f, ok := s.nilPhiForm(inner, env, what, depth+1)
+			if !ok {
+				return nil, false
+			}
+			alts = append(alts, fAnd(f, s.edgeCond(p, ph.Block(), env, what)))
+			continue
+		}
+		// anything else may be nil
+		alts = append(alts, s.edgeCond(p, ph.Block(), env, what))
+	}
+	if len(alts) == 0 {
+		return fFalse(), true
+	}
+	return fOr(alts...), true
+}
+
+// nonNilInterface: v is an interface value made from a concrete value (&T{...}, a struct, even a nil pointer): the
+// interface itself is never nil.
+func nonNilInterface(v ssa.Value) bool {
+	_, ok := v.(*ssa.MakeInterface)
+	return ok
 }
 
 func hasLoop(f *ssa.Function) bool {
@@ -2489,7 +2748,7 @@ func localFieldStore(v ssa.Value, field int, depth int) (ssa.Value, bool) {
 					}
 				}
 			case *ssa.Store:
-				if y.Addr == ssa.Value(x) {
+				if y.Addr == ssa.Value(x) && !selfStore(y) {
 					if c, ok := y.Val.(*ssa.Const); !ok || c.Value != nil {
 						if n == 0 {
 							return localFieldStore(y.Val, field, depth+1)
@@ -2546,14 +2805,76 @@ func (s *Summarizer) seedFieldTerms(f *ssa.Function, args []ssa.Value, env, env2
 				if field < 0 || !bases[base] {
 					continue
 				}
-				if val, ok := localFieldStore(args[i], field, 0); ok {
-					if tm, ok := s.termOf(val, env); ok {
-						env2[v] = tm
-					}
+				tm, ok := s.fieldTermOfArg(args[i], field, env, 0)
+				if os.Getenv("FIELD_DEBUG") != "" {
+					fmt.Fprintf(os.Stderr, "S.seedFieldTerms %s in %s arg %T %s: %v %v\n", v, f.Name(), args[i], args[i], tm, ok)
+				}
+				if ok {
+					env2[v] = tm
 				}
 			}
 		}
 	}
+}
+
+// fieldTermOfArg: the term that field #field of the struct argument arg holds: stored by the caller into a local
+// struct, or by the repository helper that built the struct (all of its returns agreeing).
+func (s *Summarizer) fieldTermOfArg(arg ssa.Value, field int, env termEnv, depth int) (Term, bool) {
+	if val, ok := localFieldStore(arg, field, 0); ok {
+		return s.termOf(val, env)
+	}
+	if depth > 3 {
+		return Term{}, false
+	}
+	for i := 0; i < 6; i++ {
+		switch x := arg.(type) {
+		case *ssa.UnOp:
+			if al, ok := x.X.(*ssa.Alloc); ok && x.Op == token.MUL {
+				if st := singleStoreLoose(al); st != nil && onlyFieldReads(al) {
+					arg = st.Val
+					continue
+				}
+			}
+		case *ssa.Alloc:
+			if st := singleStoreLoose(x); st != nil && onlyFieldReads(x) {
+				arg = st.Val
+				continue
+			}
+		}
+		break
+	}
+	ridx := 0
+	if ex, isEx := arg.(*ssa.Extract); isEx {
+		arg, ridx = ex.Tuple, ex.Index
+	}
+	call, ok := arg.(*ssa.Call)
+	if !ok {
+		return Term{}, false
+	}
+	g := staticCallee(call.Common())
+	if g == nil || g.Blocks == nil || g.Pkg == nil || !strings.HasPrefix(g.Pkg.Pkg.Path(), modulePath) || ridx >= g.Signature.Results().Len() {
+		return Term{}, false
+	}
+	envG := termEnv{}
+	for i, p := range g.Params {
+		if i < len(call.Common().Args) {
+			if t, ok := s.termOf(call.Common().Args[i], env); ok {
+				envG[p] = t
+			}
+		}
+	}
+	var res *Term
+	for _, ret := range Returns(g) {
+		t, ok := s.fieldTermOfArg(ret.Results[ridx], field, envG, depth+1)
+		if !ok || (res != nil && *res != t) {
+			return Term{}, false
+		}
+		res = &t
+	}
+	if res == nil {
+		return Term{}, false
+	}
+	return *res, true
 }
 
 // bindValue records (for the rest of the analysis: parameters belong to one function, and a helper called with
@@ -2774,6 +3095,53 @@ func (s *Summarizer) intAltLenCmp(x *ssa.BinOp, env termEnv) *Form {
 }
 
 // callsNoReturn: the block calls a function of the repository that has no return instruction (it always panics).
+// validatorCalls: the calls in block b of helpers of the repository that return nothing and can panic ("must"
+// helpers): control goes on past such a call only if the helper returns, that is, only on the inputs for which
+// one of its returns is reachable. nil if there is none.
+func (s *Summarizer) validatorCalls(b *ssa.BasicBlock, env termEnv) *Form {
+	var fs []*Form
+	for _, in := range b.Instrs {
+		c, ok := in.(*ssa.Call)
+		if !ok {
+			continue
+		}
+		g := staticCallee(c.Common())
+		if g == nil || g.Blocks == nil || g.Pkg == nil || !strings.HasPrefix(g.Pkg.Pkg.Path(), modulePath) || g.Signature.Results().Len() != 0 || len(Returns(g)) == 0 || !mayPanic(g) || s.depth > 8 || hasLoop(g) {
+			continue
+		}
+		_, env2, ok := s.repoCallee(c, env)
+		if !ok {
+			continue
+		}
+		s.depth++
+		var alts []*Form
+		for _, ret := range Returns(g) {
+			alts = append(alts, s.blockCond(ret.Block(), env2, fnName(g)+" returns"))
+		}
+		s.depth--
+		fs = append(fs, fOver(fOr(alts...)))
+	}
+	if len(fs) == 0 {
+		return nil
+	}
+	return fAnd(fs...)
+}
+
+// mayPanic: g has a panic statement, or calls a helper of the repository that never returns.
+func mayPanic(g *ssa.Function) bool {
+	for _, b := range g.Blocks {
+		if len(b.Instrs) > 0 {
+			if _, ok := b.Instrs[len(b.Instrs)-1].(*ssa.Panic); ok {
+				return true
+			}
+		}
+		if callsNoReturn(b) {
+			return true
+		}
+	}
+	return false
+}
+
 func callsNoReturn(b *ssa.BasicBlock) bool {
 	for _, in := range b.Instrs {
 		c, ok := in.(*ssa.Call)
